@@ -283,3 +283,39 @@ Proof.
   unfold e2e_requests. induction invs as [|i l IH]; simpl; [done|].
   rewrite app_length, map_length. destruct (cli_at_most_one_command i) as (H&_). simpl in H. lia.
 Qed.
+
+(* ---------- the informer filter: foreign Commands are never touched ---------- *)
+Lemma accepts_exclusive d : accepts 1 d = true -> accepts 2 d = true -> False.
+Proof.
+  unfold accepts. destruct (d_target d) as [[k v]|]; [|done].
+  intros [H1 _]%andb_true_iff [H2 _]%andb_true_iff. apply Z.eqb_eq in H1, H2. lia.
+Qed.
+
+(* for every list of delivered Commands: a Command that is not a reference to a Job (resp.
+   Queue) of the controller's own API group/version and kind is not deleted, stays present
+   and produces no request; every request stems from an accepted Command and carries its
+   namespace (job controller), target name and action; nothing is deleted twice *)
+Theorem foreign_commands_untouched l : let '(obs, jr, qr) := informer_run l in
+  (forall d, In d l -> accepts 1 d = false -> accepts 2 d = false -> In (deletes_of d, true) obs /\ deletes_of d = 0%nat) /\
+  (forall r, In r jr -> exists d, In d l /\ accepts 1 d = true /\ r = dreq 1 d) /\
+  (forall r, In r qr -> exists d, In d l /\ accepts 2 d = true /\ r = dreq 2 d) /\
+  (forall d, In d l -> (deletes_of d <= 1)%nat).
+Proof.
+  unfold informer_run. repeat split.
+  - apply in_map_iff. exists d. rewrite H0, H1. done.
+  - unfold deletes_of. by rewrite H0, H1.
+  - intros r Hr. apply in_map_iff in Hr as (d&<-&Hd). apply filter_In in Hd as [? ?]. eauto.
+  - intros r Hr. apply in_map_iff in Hr as (d&<-&Hd). apply filter_In in Hd as [? ?]. eauto.
+  - intros d _. unfold deletes_of. destruct (accepts 1 d) eqn:E1, (accepts 2 d) eqn:E2; try lia.
+    exfalso. eapply accepts_exclusive; eauto.
+Qed.
+
+Lemma law_filter_holds l : let '(obs, jr, qr) := informer_run l in law_filter l obs jr qr = true.
+Proof.
+  unfold informer_run, law_filter. rewrite map_length. rewrite !bool_decide_true by done. rewrite !andb_true_r. simpl.
+  apply forallb_forall. intros [d [n p]] Hin.
+  assert (n = deletes_of d /\ p = negb (accepts 1 d || accepts 2 d)) as [-> ->].
+  { clear -Hin. induction l as [|a l IH]; simpl in Hin; [done|]. destruct Hin as [Heq|Hin]; [by simplify_eq|auto]. }
+  unfold deletes_of. destruct (accepts 1 d) eqn:E1, (accepts 2 d) eqn:E2; simpl; try done.
+  exfalso. eapply accepts_exclusive; eauto.
+Qed.
